@@ -83,7 +83,7 @@ func init() {
 				cse.TimeoutMS = 60000
 				cs = append(cs, cse)
 			}
-			for i, s := range []string{"blocked-stop", "parked-dispatch", "cancel-blocked-stop", "restart-rearm", "restart-from-last", "stop-at-once", "double-stop", "long-blocked-stop", "zero-delay-middle", "equal-frequency-neighbours", "unsorted-delays", "restarts-during-report", "restart-at-start", "restart-before-first-delay", "restart-after-stop", "overrun-then-switch", "slow-then-fast"} {
+			for i, s := range []string{"blocked-stop", "parked-dispatch", "cancel-blocked-stop", "restart-rearm", "restart-from-last", "stop-at-once", "double-stop", "long-blocked-stop", "zero-delay-middle", "equal-frequency-neighbours", "unsorted-delays", "restarts-during-report", "restart-at-start", "restart-before-first-delay", "restart-after-stop", "overrun-then-switch", "slow-then-fast", "restart-goes-to-first"} {
 				reps := 2
 				if tier == "thorough" {
 					reps = 8
@@ -106,6 +106,11 @@ func init() {
 					}
 					if s == "restart-at-start" {
 						p.Scheds = []c18Sched{{0, 5}}
+					}
+					if s == "restart-goes-to-first" {
+						// the first schedule has a real start delay of its own (2.5 s); a Restart while the second one is active goes
+						// back to the first schedule, not to the wait before it
+						p.Scheds = []c18Sched{{2500, 30}, {300, 4000}}
 					}
 					if s == "slow-then-fast" {
 						// a schedule whose period is far longer than the start delay of its successor never fires at all
@@ -502,6 +507,45 @@ func c18Script(c *core.Case, o *core.Outcome) {
 			return
 		}
 		o.AddObs("invocations", int64(len(invs)))
+	case "restart-goes-to-first":
+		rc := &c18Rec{l: l}
+		runner, _ := raterun.New(rc.c18fn, c18Schedules(&p))
+		first := time.Duration(p.Scheds[0].FreqMS) * time.Millisecond
+		stopHiccups := hiccups()
+		runner.Start(ctx)
+		// 2.5 s start delay + 300 ms of the first schedule + a little of the second
+		time.Sleep(time.Duration(p.Scheds[0].DelayMS+p.Scheds[1].DelayMS+150) * time.Millisecond)
+		rc.mu.Lock()
+		before := len(rc.invs)
+		rc.mu.Unlock()
+		runner.Restart()
+		tRestart := l.Now()
+		seen := false
+		for deadline := time.Now().Add(1200 * time.Millisecond); time.Now().Before(deadline) && !seen; {
+			time.Sleep(10 * time.Millisecond)
+			rc.mu.Lock()
+			for _, in := range rc.invs[before:] {
+				if in.freq == first && in.begin > tRestart {
+					seen = true
+				}
+			}
+			rc.mu.Unlock()
+		}
+		runner.Stop()
+		worst := stopHiccups()
+		o.AddObs("invocations", int64(before))
+		if before < 3 {
+			o.Inconc("the first schedule was hardly observed before the restart (%d invocations)", before)
+			return
+		}
+		if !seen {
+			if worst > 300*time.Millisecond {
+				o.Inconc("the machine stalled for %v during the script", worst)
+				return
+			}
+			o.Violate(key, "schedules %v: Restart was called while the second schedule was active; in the 1.2 s after it the function was never invoked at the first schedule's frequency %v (it had been invoked %d times before; longest hiccup of this process %v): the runner did not go back to the first schedule", p.Scheds, first, before, worst)
+			return
+		}
 	case "slow-then-fast":
 		// the successor of a slow schedule takes over after its own start delay, whether or not the slow one has fired yet
 		rc := &c18Rec{l: l}
